@@ -1413,6 +1413,12 @@ func (m *metadataAPI) GetConsumerGroup(id string) *consumerGroup {
 // Reset closes all streams and consumer groups and clears all existing state
 // in the metadata store.
 func (m *metadataAPI) Reset() error {
+	// The consumer groups mutex is always acquired before the metadata mutex
+	// (consumer group operations look up streams while holding the former),
+	// otherwise this can deadlock with a consumer group operation being
+	// applied.
+	m.consumerGroupsMu.Lock()
+	defer m.consumerGroupsMu.Unlock()
 	m.mu.Lock()
 	defer m.mu.Unlock()
 	for _, stream := range m.getStreams() {
@@ -1421,8 +1427,6 @@ func (m *metadataAPI) Reset() error {
 		}
 	}
 	m.streams = make(map[string]*stream)
-	m.consumerGroupsMu.Lock()
-	defer m.consumerGroupsMu.Unlock()
 	for _, group := range m.getConsumerGroups() {
 		group.Close()
 	}
@@ -1505,10 +1509,11 @@ func (m *metadataAPI) RemoveTombstonedStream(stream *stream, epoch uint64) error
 // LostLeadership should be called when the server loses metadata leadership.
 // This will cancel in-flight failovers.
 func (m *metadataAPI) LostLeadership() {
-	m.mu.Lock()
-	defer m.mu.Unlock()
+	// See Reset for the lock order.
 	m.consumerGroupsMu.Lock()
 	defer m.consumerGroupsMu.Unlock()
+	m.mu.Lock()
+	defer m.mu.Unlock()
 	m.resetFailovers()
 }
 
